@@ -160,6 +160,34 @@ def run(ck):
             unaryop(it, "USub", c[1], None)
 
         check_after(ck, "C16.R4", "(%s).apply after larger expressions were built from it" % cname, osite, mk2, pre, lambda it, c: call(it, c[1], "apply", c[0], c[2]), max_paths=40)
+    # ------------------------------------------------------------------ R1 leaves that differ in an option only
+    # SigmaZ(absolute=True) and SigmaZ() carry the same name: a combination of the two is still the combination of THEIR values
+    with ck.guard("C16.R1", "leaves with the same name and different options", osite):
+        def th_same(it):
+            s = make_state(it, "PositiveWaveFunction")
+            smp = tens(it, "samples", ("B", "nv"))
+            z = it.instantiate(prog.cls("SigmaZ"), [], {}, None)
+            za = it.instantiate(prog.cls("SigmaZ"), [], {"absolute": VConst(True)}, None)
+            rz, rza = call(it, z, "apply", s, smp), call(it, za, "apply", s, smp)
+            comp = binop(it, "Sub", za, binop(it, "Mult", VConst(2), z, None), None)
+            return rz, rza, call(it, comp, "apply", s, smp)
+
+        for p in returning(paths_of(prog, th_same), "same-name leaves"):
+            rz, rza, got = p.value
+            tz, tza, tg = getattr(rz, "term", None), getattr(rza, "term", None), getattr(got, "term", None)
+            if tz is None or tza is None or tg is None or tz == tza:
+                ck.undecided("C16.R1", "|Z| - 2*Z", osite, "leaf values not followed")
+                continue
+            want = tza - 2 * tz
+            if tg == want:
+                ck.ok("C16.R1", "|Z| - 2*Z: each leaf contributes its own value", osite)
+            elif tg in (tz - 2 * tz, tza - 2 * tza):
+                ck.violation("C16.R1", "|Z| - 2*Z: each leaf contributes its own value", osite,
+                             "SigmaZ(absolute=True) - 2*SigmaZ() evaluates to %s: the two leaves, which share the name 'SigmaZ' and differ in `absolute`, are evaluated as one (a value kept per leaf NAME)" % (str(tg)[:120],),
+                             key="C16.R1|same-name leaves merged")
+            else:
+                d = lin_diff(tg, want)
+                ck.check(diff_verdict(d), "C16.R1", "|Z| - 2*Z: each leaf contributes its own value", osite, "SigmaZ(absolute=True) - 2*SigmaZ(): " + diff_msg(d))
     ck.require_min("C16.R4", 9)
     # ------------------------------------------------------------------ R5 a leaf's result is not written to
     # A leaf may hand back a view of the batch (a user observable returning samples[:, 0] does); arithmetic on it must build
